@@ -8,7 +8,7 @@
 From Coq Require Import ZArith List Bool.
 Require Import PV.Model.Cache PV.Model.CacheSpec.
 Require Import PV.Proofs.CacheWorld PV.Proofs.CacheRecompute2 PV.Proofs.CacheRecompute3 PV.Proofs.CacheTimed
-  PV.Proofs.CacheUnpersist PV.Proofs.CacheFinding.
+  PV.Proofs.CacheUnpersist PV.Proofs.CacheFinding PV.Proofs.CacheHistory.
 Import ListNotations.
 Open Scope Z_scope.
 
@@ -62,6 +62,24 @@ Theorem C05_no_recompute_plain : forall (A : Type) (w : world A) st k P cx m pre
   m_timeout m = None -> has_key (rid, i) m ->
   user_calls_of (map fst pre) i (snd (fst (step w st (Act k (length pre + 1 + jd) ak)))) = [].
 Proof. exact no_recompute_step_plain. Qed.
+(* along histories, CacheManager: "has been computed" -- a collect()/count() job on the persisted dataset
+   itself leaves an entry for every partition ... *)
+Theorem C05_collect_caches_all_plain : forall (A : Type) now rid (up : list (node A)) parts i0 (m : mgr A) idx,
+  m_timeout m = None -> (idx < length parts)%nat ->
+  pk A (rid, i0 + Z.of_nat idx) (snd (run_all now ((rid, SPersist) :: up) parts i0 m)).
+Proof. exact collect_caches_all_plain. Qed.
+(* ... and once the entry (rid, i) is there, after ANY further history that does not unpersist that
+   dataset (other datasets' unpersists, actions of other contexts sharing the manager, partial actions),
+   EVERY action on the persisted dataset or a descendant makes no upstream call for partition i *)
+Theorem C05_no_recompute_history_plain : forall (A : Type) (w : world A) st1 h2 k P cx m1 pre rid post jd ak i,
+  built w ->
+  nth_error (w_pipes w) k = Some P -> p_nodes P = pre ++ (rid, SPersist) :: post ->
+  nth_error (w_ctxs w) (p_ctx P) = Some cx -> nth_error (s_mgrs st1) (c_mgr cx) = Some m1 ->
+  m_timeout m1 = None -> has_key (rid, i) m1 ->
+  Forall (fun a => ~ unpersists A w rid a) h2 ->
+  user_calls_of (map fst pre) i
+    (snd (fst (step w (final_state w st1 h2) (Act k (length pre + 1 + jd) ak)))) = [].
+Proof. exact no_recompute_history_plain. Qed.
 (* TimedCacheManager: the full statement ("cached and younger than the timeout => not recomputed") is
    FALSE of the code as it is (finding: delete() leaves the stamp in _time_added) *)
 Definition C05_no_recompute_full : Prop := no_recompute_full.
